@@ -5,10 +5,12 @@ import (
 	"fmt"
 	"math"
 	"testing"
+	"time"
 
 	"github.com/ipfs/go-cid"
 	"pgregory.net/rapid"
 
+	ipfslog "berty.tech/go-ipfs-log"
 	"berty.tech/go-ipfs-log/iface"
 
 	"verifharness/ev"
@@ -27,6 +29,7 @@ type c10Prog struct {
 	Runs        []loadSpec `json:"runs"`                  // >= 3 executions with different concurrency / completion order
 	HeadPerm    []int      `json:"headPerm,omitempty"`    // order of the published head list (empty: the log\'s own order)
 	DupSupplied bool       `json:"dupSupplied,omitempty"` // entries loader: one supplied entry is named twice
+	Abandoned   int        `json:"abandoned,omitempty"`   // k > 0: earlier in the process a load of ANOTHER log (in the same store) was abandoned - its context was already cancelled (k odd) or expired after about k block reads (k even) - through loader #(k mod 4, entry-based ones)
 	Roomy       int        `json:"roomy,omitempty"`       // entries loader: spare capacity of the slice the caller hands over (0: none, as a literal has; k: room for k more entries, as a slice cut from a larger one has)
 	Shared      int        `json:"shared,omitempty"`      // 0: a fresh limit variable per load; 1-4: the caller keeps ONE limit variable for all its loads and first uses it for a load through loader #(Shared-1)
 }
@@ -53,6 +56,9 @@ func genC10(t *rapid.T) c10Prog {
 		p.Runs = append(p.Runs, s)
 	}
 	p.Roomy = rapid.SampledFrom([]int{0, 0, 1, 4, 64, 2000}).Draw(t, "roomy")
+	if rapid.IntRange(0, 3).Draw(t, "abandoned") == 0 {
+		p.Abandoned = rapid.IntRange(1, 8).Draw(t, "abandonedK")
+	}
 	return p
 }
 
@@ -176,6 +182,34 @@ func runC10(tb ev.TB, p c10Prog) ev.Result {
 				tb.Fatalf("%s loader, limit %d (first load through the caller's limit variable): %v", wl, n, err)
 			}
 		}
+	}
+	if p.Abandoned > 0 {
+		// what an abandoned load was after is nobody's business afterwards
+		aside, err := world.NewLog(w.Store.API(), 5, "aside-log", w.Order, w.IO, nil)
+		if err != nil {
+			tb.Fatalf("harness: %v", err)
+		}
+		var last iface.IPFSLogEntry
+		for i := 0; i < 6; i++ {
+			if last, err = aside.Append(ctx, []byte{byte('a' + i)}, &ipfslog.AppendOptions{PointerCount: 1 + i%3}); err != nil {
+				tb.Fatalf("harness: %v", err)
+			}
+		}
+		actx, cancel := context.WithCancel(ctx)
+		if p.Abandoned%2 == 1 {
+			cancel()
+		} else {
+			w.Store.SetDelay(time.Millisecond)
+			go func() { time.Sleep(time.Duration(p.Abandoned) * time.Millisecond); cancel() }()
+		}
+		alo := &ipfslog.LogOptions{ID: "aside-log", SortFn: world.SortFn(w.Order), IO: w.IO}
+		if p.Abandoned%4 < 2 {
+			_, _ = ipfslog.NewFromEntryHash(actx, w.Store.API(), world.Identity(7), last.GetHash(), alo, &ipfslog.FetchOptions{Concurrency: 1})
+		} else {
+			_, _ = ipfslog.NewFromEntry(actx, w.Store.API(), world.Identity(7), []iface.IPFSLogEntry{last}, alo, &iface.FetchOptions{Concurrency: 1})
+		}
+		cancel()
+		w.Store.SetDelay(0)
 	}
 	for ri2, spec := range p.Runs {
 		var got world.Set
